@@ -72,7 +72,7 @@ def check(rep: Report, tier: str, seed: int):
         behaviours = []
         for consts in grid:
             c = dict(consts, EmitBehaviours=True)
-            res = tlc.run("TokenBucket", tlc.cfg_text(c, invariants=INVS + ["EmitInv"]), workdir=wd)
+            res = tlc.run("TokenBucket", tlc.cfg_text(c, invariants=INVS + ["EmitInv"]), workdir=wd, coverage=True)
             rep.add_tlc("TokenBucket/MC", res, consts, "all arrival sequences of <= MaxReq requests over <= MaxNow ticks")
             if not res.ok:
                 rep.violation(Violation("C20", res.violated, "mc", {"constants": consts, "trace": res.counterexample},
